@@ -189,9 +189,6 @@ impl Gen
                 {
                     if self.g.cfg.neworld == 0 || in_ew { continue; }
                     let e = self.ent();
-                    // an entity is added to the entity world reactor at most once (no duplicate registrations)
-                    if self.regd.contains(&(200, Trig::EMut(e, 1))) { continue; }
-                    self.regd.push((200, Trig::EMut(e, 1)));
                     Op::EAdd(1, e, self.val())
                 }
                 "erem" =>
